@@ -442,13 +442,13 @@ def generate(rng, tier):
         is_open = stream == 'open'
         if is_open and not full and rng.random() < 0.5:
             continue                      # quick tier: half of the single-line OPEN statements
-        for kd, e in contexts(None if (is_open and full) else (2 if is_open else (3 if full else 1))):
+        for kd, e in contexts(9 if (is_open and full) else (2 if is_open else (3 if full else 1))):
             c = case(stream, body, True, f'f:{kd}:{e}')
             if c:
                 yield c
         yield Case([A('segs'), body], stream='segs', nontrivial='!' in body or "'" in body or '"' in body)
     # statements continued with &
-    for _ in range({'quick': 70, 'thorough': 300, 'search': 150}.get(tier, 70)):
+    for _ in range({'quick': 70, 'thorough': 200, 'search': 120}.get(tier, 70)):
         text = continued_open(rng)
         for kd, e in contexts(None if full else 3):
             c = case('open-continued', text, True, f'f:{kd}:{e}', op='stmt')
@@ -501,7 +501,8 @@ class C05(Prop):
     driver = 'Drivers/C05.lean'
     theorems = ['C05_registry_pinned', 'C05_no_trigger_identity', 'C05_untargeted_partial', 'C05_tokInProt_eq_classes',
                 'C05_targeted_restored_convert', 'C05_targeted_restored_newunit', 'C05_targeted_restored',
-                'C05_directive_rules_anchored', 'C05_pp_directive_untouched', 'C05_full_false']
+                'C05_directive_rules_anchored', 'C05_pp_directive_untouched', 'C05_full_false',
+                'C05_newunit_continued_restored', 'C05_convert_continued_restored', 'C05_continued_tail_missing_witness']
     design_ref = 'DESIGN.md 4.A C05'
     level_text = ('Theorems (Lean kernel; every line = any list of Unicode characters, with or without final newline, no length bound) '
                   'about a line-level model of the six rules of sanitize_registry[FP] and of the two re-insertion callbacks (the code '
@@ -512,7 +513,10 @@ class C05(Prop):
                   '(reverse registry order) the statement text is the line as it was before the OPEN rules, also when both rules fire; '
                   'C05_directive_rules_anchored (full strength) — the @PROCESS and Fypp rules fire only on lines made of blanks + the '
                   'directive and delete exactly that line; C05_pp_directive_untouched (full strength) — a # directive line with a macro '
-                  'token after the # passes the macro rules verbatim (now also __LINE__); C05_untargeted_partial — if no macro token '
+                  'token after the # passes the macro rules verbatim (now also __LINE__); C05_newunit_continued_restored / '
+                  'C05_convert_continued_restored — for a statement continued with &, each callback gives back the first line followed by '
+                  'the remaining lines whenever the first occurrence of its tail group in the node source string is the one at the end of '
+                  'the first line (otherwise: open class open-continued-tail-missing, C05_continued_tail_missing_witness); C05_untargeted_partial — if no macro token '
                   'lies inside a literal or comment (the open classes macro-in-string / macro-in-comment) and the line is not a deleted '
                   'directive line, the statement text after sanitisation and re-insertion is the line with only its code stretches '
                   'rewritten, every character-literal stretch and the comment carried over verbatim in place; C05_full_false (witness '
@@ -524,22 +528,29 @@ class C05(Prop):
     level_note = ('The model is hand-written per regex (leftmost match with greedy/lazy priorities made explicit) and validated by '
                   'correspondence, not derived from the regex text; a changed text breaks C05_registry_pinned. Per-line model: faithful '
                   'for multi-line sources as long as no rule removes a newline before a later rule runs (rule 4 corner case). '
-                  'Not modelled: the & continuation branch of the re-insertion callbacks, str.splitlines separators other than \\n '
+                  'The & continuation branch of both callbacks is modelled at callback level (effectiveCont on a given source string, raw and '
+                  'sanitised variant) and diffed with the real sanitize_ir; which string the frontend stores per entry point, the program-unit '
+                  'visitors that must pass pp_info (subroutine / function / module procedure / internal procedure bodies and specs) and '
+                  'trailing comments after & are oracle-only. Not modelled: str.splitlines separators other than \\n '
                   'inside a line, \\d beyond ASCII digits in the Fypp rule, the Fortran parser itself, the REGEX-frontend registry.')
     technique = ('Lean 4 theorems about a hand-written line-level model of the six FP sanitisation rules + correspondence with '
                  'sanitize_input / the re-insertion callbacks + parse/regenerate oracle with the real FP frontend')
     rule = ('structured stream: every trigger text (5 macro tokens, @PROCESS, CONVERT=, NEWUNIT=, full CONVERT argument, newunit=iu, '
             'fypp names) inside \'..\' and ".." literals (with prefix/suffix text and doubled quotes) in assignment, print, call, '
             'if and concatenation statements, in standalone/inline/after-literal comments, in #define lines, glued to identifiers, as '
-            'code; 260 random OPEN statements (unit/newunit spellings x CONVERT spellings/case x argument order x separators x '
-            'trailing comments); fuzz stream: random concatenations of 49 fragments (triggers, partial triggers, quotes, !, #, &, '
-            'exotic blanks, dotless/dotted I) with OPEN/# prefixes; segmenter stream: the same lines through the Python mirror of '
-            '`segments`; non-trivial = the line contains a trigger text; distinct by request line')
+            'code; 260 random single-line OPEN statements and 70/200 OPEN statements continued over 2-3 lines with & (NEWUNIT/CONVERT '
+            'on the first or a later line, with/without leading &); specification-part lines (parameter initialisers, comments, '
+            'directives). Every oracle case is placed in one of 6 program-unit kinds (subroutine, function, module subroutine/function, '
+            'internal subroutine/function; spec of subroutine/function/module) and parsed through one of 3 entry points '
+            '(Sourcefile.from_source, Subroutine/Module.from_source, REGEX + make_complete(FP)): quick = 1-3 random combinations per '
+            'line, thorough = 9 for single-line and all 18 for continued OPEN statements; PROGRAM units are not supported by the frontend. Fuzz stream: random '
+            'concatenations of 49 fragments with OPEN/# prefixes, also as 2-3 line statements with & (callback continuation branch); '
+            'segmenter stream: the same lines through the Python mirror of `segments`; non-trivial = contains a trigger; distinct by request')
     trusted_base = ['harness/props/c05.py: Python mirror of the segmenter/classifier (diffed with the Lean one on every line)',
                     'harness/props/c05.py: oracle extraction of literal values and comments from regenerated code',
                     'Lean driver evaluation of the model definitions']
     assumptions = ['lines are split at \\n only (no \\r, \\f, \\v, U+2028 … inside the generated lines)',
-                   'single-line statements (no & continuation after a removed OPEN argument)',
+                   'no trailing comment after the & of a continued OPEN line',
                    'Fypp annotation line numbers use ASCII digits']
     extra_obligations = ['correspondence: segmenter and known-class predicates (Python mirror vs Lean)',
                          'oracle: parse with the real FP frontend + fgen, literal values / comments / identifiers / OPEN arguments preserved']
